@@ -16,7 +16,7 @@
 From Coq Require Import List ZArith Lia.
 Import ListNotations.
 From V Require Import Valid.Hier Model.Graph Model.Prune Model.Src Model.SrcProof Model.SrcIdx Model.SrcPrune.
-From V Require Model.SrcE Model.SrcERefute Model.SrcEProof Model.SrcEIdx.
+From V Require Model.SrcE Model.SrcERefute Model.SrcEProof Model.SrcEIdx Model.SrcEPrune.
 
 Theorem C08_prune_unreachable :
   forall g entry g', prune_unreachable g entry = Some g' ->
@@ -143,3 +143,23 @@ Proof.
            (SrcEIdx.build_indices_distinct body) He Ho).
 Qed.
 Print Assumptions C08_graph_means_source_with_and_or.
+
+Theorem C08_pruned_graph_means_source_with_and_or :
+  forall (state : Type) (aval : Z -> state -> option (Z * state))
+         (opf : Z -> list Z -> state -> option (Z * state))
+         (act : Z -> option Z -> state -> option state)
+         (foract : Z -> Z -> Z -> option Z -> state -> option state)
+         (fortest : Z -> state -> option (bool * state))
+         (body : SrcE.stmts) (fuel : nat) (s : state) (o : SrcE.outcome state) (G' : list SrcE.blk) (e' : Z),
+    SrcEProof.good_stmts body = true ->
+    SrcE.exec state aval opf act foract fortest fuel body s = o ->
+    (exists a s', o = SrcE.ORet a s') \/ o = SrcE.ORaise ->
+    SrcEPrune.sprune (SrcE.build body) 0 = Some (G', e') ->
+    exists fuel', SrcE.run state aval opf act foract fortest G' fuel' e' [] s = o.
+Proof.
+  intros state aval opf act foract fortest body fuel s o G' e' Hg He Ho Hp.
+  destruct (C08_graph_means_source_with_and_or state aval opf act foract fortest body fuel s o Hg He Ho) as [f1 H1].
+  exact (SrcEPrune.prune_keeps_meaning state aval opf act foract fortest (SrcE.build body) 0 G' e'
+           (SrcEPrune.build_tests_last body) Hp f1 [] s o H1 Ho).
+Qed.
+Print Assumptions C08_pruned_graph_means_source_with_and_or.
